@@ -40,7 +40,8 @@ CHECKS = {
              'validate, and each single-point mutation (remove a required child, exceed a maximum, add a foreign child, add an '
              'unknown element; at message, group, segment and field level) must be rejected with an error naming the element. A '
              'contract on Validator.validate checks on every call that encoding and shape are unchanged and is_valid <=> no errors; '
-             'the harness compares the three calling forms (repeat, raising form = first error, report file = errors+warnings).',
+             'the harness compares the calling forms (repeat, raising form = first error, report written to a StringIO, to a '
+             'write-only object and to a path; forced validation of parse_message with and without a profile).',
         note='instance builder is independent of parser and validator; structures holding a choice group or a pseudo segment '
              'are judged differentially only (removing the only occurrence of a required child must add the matching error); '
              'every instance carries a Z segment with version-specific base datatypes and runs under a far default version'),
@@ -62,7 +63,8 @@ CHECKS = {
              'check delimiter-safety, sequence membership of every escape char, idempotence, the fixed point on well-formed '
              'text, and count preservation of datatype-object assignment inside messages and parentless segments; related sets '
              '(roles exchanged, only FIELD / ESCAPE / TRUNCATION changed) follow each other in one process; report-sized leaves; '
-             'the textual leaf substituted for invalid non-textual values under TOLERANT.',
+             'the textual leaf substituted for invalid non-textual values under TOLERANT; leaves created with highlights= (reference '
+             'with the markers around the raw ranges, re-encoded under a second escape character).',
         note='trusts er7ref.well_formed/ref_escape; CR not in the alphabet'),
     'C07': dict(
         technique='runtime monitoring: reference tokenizer + descendant walk over seeded random delimiter sets (builder and parser paths)',
@@ -151,8 +153,8 @@ CHECKS = {
              'delimiter edits, header surgery, garbled/Z segment names, CR/LF variants, junk) and fed to parse_message '
              '(both levels, find_groups on/off) and get_message_type; whatever parses must encode and validate to a report. '
              'Leaks are keyed by (stage, exception type, innermost hl7apy function). Every field row of every segment is '
-             'populated once with a hostile shape and pushed through the same stages; the thorough tier adds a coverage-guided '
-             'atheris session.',
+             'populated once with a hostile shape and pushed through the same stages; optional arguments of parse_message at '
+             'their edge values; reports written to a write-only object; the thorough tier adds a coverage-guided atheris session.',
         note='allowed: result, HL7apyException subclass, ValueError under STRICT'),
     'C16': dict(
         technique='runtime monitoring: offline history checker over client-boundary and handler events, with socketpair chunk control and concurrent TCP stress',
@@ -163,7 +165,8 @@ CHECKS = {
              '(no start block, close at every prefix, stall beyond the timeout, undecodable bytes, junk). Per connection the '
              'checker requires exactly one invocation of the right handler with the framed text, the client receiving exactly '
              'that reply (70 kB - 20 MB replies included), built with its registered extra arguments, then close; malformed input: '
-             'no handler, close; payloads with LF / CR LF, five-character MSH-2.',
+             'no handler, close; payloads with LF / CR LF, line-break-like characters in the header, five-character MSH-2; '
+             'handlers registered to raise hand their exception to the ERR handler.',
         note='handlers are harness classes passed to MLLPServer; stall verdict is not time-based'),
     'C17': dict(
         technique='runtime monitoring: differential execution of an explicit-argument call corpus across default configurations',
@@ -192,7 +195,7 @@ CHECKS = {
              'functions touching process-wide state, (c) a deterministic two-thread baton scheduler with every single hand-over at '
              'anchor events of warm calls, (d) fresh processes in which the first user of each version is pre-empted at the first '
              'hit of each distinct anchor location (lazy imports, table construction, first lookups), followed by a datatype '
-             'override in one thread and a parse in another. Baton plans switch at the first and last visit of every distinct '
+             'override in one thread and a parse in another, and preceded by two core-only calls made before anything imports the parser. Baton plans switch at the first and last visit of every distinct '
              'anchor location and include two-switch schedules; anchors = functions touching module-level containers, globals or '
              'class attributes.',
         note='line-granularity interleavings under the GIL; reference of cold schedules computed in the parent process'),
